@@ -84,7 +84,8 @@ pub enum Mon {
 pub struct W4Cfg {
     pub rig: RigCfg,
     /// per slave: deviation of the *slave's* expectation from the master's options:
-    /// 0 = matches, 1 = slave expects another configuration, 2 = slave has another ident
+    /// 0 = matches, 1 = slave expects another configuration, 2 = slave has another ident,
+    /// 3 = the station does not exist (never answers)
     pub slave_dev: Vec<u8>,
     pub gc_every_visit: bool,
     pub high_prio: bool,
@@ -576,6 +577,8 @@ impl Exec {
         };
         let addr = self.cfg.rig.periphs[idx].addr;
         self.tick();
+        // slave deviation 3: the station does not exist — every request to it times out, whatever the action
+        let a = if self.cfg.slave_dev.get(idx).copied() == Some(3) { Act::ReqLost } else { a };
         match a {
             Act::ReqLost => self.do_timeout(idx, &sent, addr),
             Act::ReplyLost => {
